@@ -54,7 +54,7 @@ def main():
     coverage = {}
 
     # ---------------------------------------------------------------- build + proofs
-    ok, log = F.build(tier, getattr(mod, 'generated_hook', None))
+    ok, log = F.build(tier, getattr(mod, 'generated_hook', None), pid)
     forb = F.forbidden_scan()
     if ok:
         po = F.proof_obligations(pid, tier)
